@@ -86,13 +86,21 @@ func errText(e error) string {
 }
 
 func runC18(c *mon.Ctx) {
-	c.Rule("objects: valid and rule-breaking claims-sets of both profiles and the P2 extension built by direct assignment / by setters / by decoding CBOR (incl. C04's type-breaking and open-encoding tokens that still decode) / by decoding JSON, and Evidence obtained by decoding COSE and by signing. On each object a random sequence of 1..30 read-side calls (Validate, the 10 getters, component getters, CBOR/JSON encoding validating and not, generic ValidateClaims, SetClaims of the object on ANOTHER Evidence; on Evidence: Verify with right / wrong / nil key, GetInstanceID, GetImplementationID, MarshalJSON), every call issued twice. Oracle: (1) the two results of each call are identical (encodings byte-identical); (2) a deep snapshot (go-spew dump of every exported and unexported field reachable from the object, pointer addresses and capacities masked; for Evidence including the hidden COSE message) is identical before and after the sequence; (3) decode-from-buffer cases: after the decode the caller's buffer is overwritten with 0x00, 0xFF and random bytes - deep snapshot, every getter result and the Verify outcomes must not change. distinct_nontrivial = distinct (object kind, route, validity class, first calls) signatures")
+	c.Rule("objects: valid and rule-breaking claims-sets of both profiles and the P2 extension built by direct assignment / by setters / by decoding CBOR (incl. C04's type-breaking and open-encoding tokens that still decode) / by decoding JSON, and Evidence obtained by decoding COSE and by signing. On each object a random sequence of 1..30 read-side calls (Validate, the 10 getters, component getters, CBOR/JSON encoding validating and not, generic ValidateClaims, SetClaims of the object on ANOTHER Evidence; on Evidence: Verify with right / wrong / nil key, GetInstanceID, GetImplementationID, MarshalJSON), every call issued twice. Oracle: (1) the two results of each call are identical (encodings byte-identical); (2) a deep snapshot (go-spew dump of every exported and unexported field reachable from the object, pointer addresses and capacities masked; for Evidence including the hidden COSE message) is identical before and after the sequence; (2b) the raw CBOR / JSON encodings handed out for an object, and the Verify outcome of an Evidence, are kept and re-checked after six further objects were processed; (3) decode-from-buffer cases: after the decode the caller's buffer is overwritten with 0x00, 0xFF and random bytes - deep snapshot, every getter result and the Verify outcomes must not change. distinct_nontrivial = distinct (object kind, route, validity class, first calls) signatures")
 	if err := extprof.Register(extprof.ExtP2Name); err != nil {
 		c.Violation("harness/register", err.Error(), nil)
 		return
 	}
 	g := model.NewGen(c.Seed*6997 + int64(c.Shard))
 	ks := []keys.Pair{keys.New("ES256", 0), keys.New("EdDSA", 0), keys.New("PS256", 0)}
+	held18 := &returnedBytes{prop: "C18"}
+	type c18HeldEv struct {
+		ev    *psatoken.Evidence
+		pk    crypto.PublicKey
+		ok    bool
+		route string
+	}
+	var held18ev []c18HeldEv
 	n := c.N(60000, 1500000)
 	for i := 0; i < n; i++ {
 		// ---- obtain an object
@@ -221,6 +229,27 @@ func runC18(c *mon.Ctx) {
 		}
 		if !ok {
 			continue
+		}
+		// encodings handed out for THIS object must not be disturbed by what is
+		// done with other objects later: keep the raw slices, re-check after six more objects
+		if x != nil {
+			if b, err := psatoken.EncodeClaimsToCBOR(x); err == nil {
+				held18.add(c, b, "EncodeClaimsToCBOR", route+"|"+valClass, nil, nil)
+			}
+			if b, err := psatoken.EncodeClaimsToJSON(x); err == nil {
+				held18.add(c, b, "EncodeClaimsToJSON", route+"|"+valClass, nil, nil)
+			}
+		}
+		if ev != nil {
+			held18ev = append(held18ev, c18HeldEv{ev, pks[0], ev.Verify(pks[0]) == nil, route})
+			if len(held18ev) > 6 {
+				h := held18ev[0]
+				held18ev = held18ev[1:]
+				c.Count("held-evidence-rechecked")
+				if (h.ev.Verify(h.pk) == nil) != h.ok {
+					c.Violation("C18/verify-outcome-changed-later/"+h.route, "the Verify outcome of an untouched Evidence changed after other objects were encoded / verified", map[string]any{"route": h.route, "verified_before": h.ok})
+				}
+			}
 		}
 		after := deepSnapshot(target)
 		if before != after {
